@@ -340,6 +340,7 @@ func main() {
 			return []*explore.Scenario{{
 				Name:   "idle timelines",
 				Shards: 16,
+				Bound:  b,
 				Enum: func(c *explore.EnumCtx) {
 					for _, ic := range cases(th) {
 						if !c.Mine() || c.Expired() {
